@@ -426,7 +426,9 @@ func (r *ComboRoute) route(fn func(string, ...Handler) *Route, method string, ha
 	}
 	r.added[method] = struct{}{}
 
-	r.lastRoute = fn(r.routePath, append(r.handlers, handlers...)...)
+	// Cap the common handlers so that append always copies, otherwise handlers of
+	// different methods may end up sharing (and overwriting) the same backing array.
+	r.lastRoute = fn(r.routePath, append(r.handlers[:len(r.handlers):len(r.handlers)], handlers...)...)
 	return r
 }
 
